@@ -409,9 +409,13 @@ pub fn run(tier: Tier) -> i32 {
         }
         // distance 2 (thorough): all pairs of single sites
         if tier.thorough() && !name.starts_with("c0") && !name.starts_with("c1") {
+            // (pairs run over one alternative per site and kind - the first comment text; every
+            // alternative is covered singly above)
+            let mut seen: std::collections::BTreeSet<(usize, usize, &str)> = std::collections::BTreeSet::new();
+            let all: Vec<&Edit> = all.iter().filter(|e| seen.insert((e.line, e.tok, e.kind))).collect();
             for i in 0..all.len() {
                 for j in i + 1..all.len() {
-                    let (a, b) = (&all[i], &all[j]);
+                    let (a, b) = (all[i], all[j]);
                     if a.line == b.line && a.tok == b.tok {
                         continue;
                     }
